@@ -130,6 +130,17 @@ impl Bin {
     fn from_sym(s: &str) -> Option<Bin> {
         ALL_BIN.into_iter().find(|b| b.sym() == s)
     }
+    /// Precedence as documented in the README (higher binds tighter).
+    pub fn precedence(self) -> u32 {
+        match self {
+            Bin::Exp => 120,
+            Bin::Mul | Bin::Div | Bin::Mod => 100,
+            Bin::Add | Bin::Sub => 95,
+            Bin::Eq | Bin::Neq | Bin::Gt | Bin::Lt | Bin::Geq | Bin::Leq => 80,
+            Bin::And => 75,
+            Bin::Or => 70,
+        }
+    }
 }
 
 impl AOp {
@@ -258,6 +269,16 @@ impl Expr {
         s
     }
 
+    /// Like `render`, but a left operand that is itself a binary operation of at least the same
+    /// precedence is written without parentheses (`a + b + c`, `a * b - c`): the parser then
+    /// builds directly nested binary nodes, with no `RootNode` in between.
+    pub fn render_loose(&self) -> String {
+        LOOSE.with(|l| l.set(true));
+        let s = self.render();
+        LOOSE.with(|l| l.set(false));
+        s
+    }
+
     /// Rendered so that it can stand as an operand: compound expressions get parentheses.
     fn render_operand(&self, out: &mut String) {
         if self.is_leaf() {
@@ -293,7 +314,13 @@ impl Expr {
                 a.render_operand(out);
             },
             Expr::Bin(b, l, r) => {
-                l.render_operand(out);
+                let loose_left = LOOSE.with(|x| x.get())
+                    && matches!(&**l, Expr::Bin(lb, _, _) if lb.precedence() >= b.precedence());
+                if loose_left {
+                    l.render_bare(out);
+                } else {
+                    l.render_operand(out);
+                }
                 out.push(' ');
                 out.push_str(b.sym());
                 out.push(' ');
@@ -690,6 +717,10 @@ fn render_value(v: &V, out: &mut String) {
         },
         Value::Empty => out.push_str("()"),
     }
+}
+
+thread_local! {
+    static LOOSE: std::cell::Cell<bool> = const { std::cell::Cell::new(false) };
 }
 
 thread_local! {
